@@ -666,7 +666,7 @@ def state(cqm):
 OPS = (['addvar'] * 3 + ['objm'] * 2 + ['objt'] + ['conm'] * 4 + ['conc'] * 2 + ['cont'] * 2 + ['discm', 'discc', 'discv', 'discv']
        + ['rmvar'] * 3 + ['fix'] * 3 + ['fixmany', 'fixcopy', 'fixcopy'] + ['flip'] * 2 + ['cvt'] * 2 + ['s2b'] + ['rmcon'] * 2
        + ['relv'] * 2 + ['relc'] + ['setb'] + ['vaddl', 'vsetl', 'vaddq', 'vaddq', 'vrmi', 'vrmv', 'voff', 'vmark', 'vweight']
-       + ['deepcopy'] + ['cpapi'] * 3 + ['bad'] * 3)
+       + ['deepcopy'] + ['cpapi'] * 3 + ['addvars'] * 2 + ['clear'] + ['bad'] * 3)
 
 
 def classify(k, line, ref, args):
@@ -676,7 +676,7 @@ def classify(k, line, ref, args):
             'discv': 'CQM.add_discrete', 'rmvar': 'CQM.remove_variable', 'fix': 'CQM.fix_variable', 'fixmany': 'CQM.fix_variables',
             'fixcopy': 'CQM.fix_variables', 'flip': 'CQM.flip_variable', 'cvt': 'CQM.change_vartype', 's2b': 'CQM.spin_to_binary',
             'rmcon': 'CQM.remove_constraint', 'relv': 'CQM.relabel_variables', 'relc': 'CQM.relabel_constraints',
-            'setb': 'CQM.set_bound', 'deepcopy': 'CQM.__deepcopy__', 'cpapi': 'CQM copy-returning call'}.get(k, 'CQM expression view')
+            'setb': 'CQM.set_bound', 'deepcopy': 'CQM.__deepcopy__', 'cpapi': 'CQM copy-returning call', 'addvars': 'CQM.add_variables', 'clear': 'CQM.clear'}.get(k, 'CQM expression view')
     return site
 
 
@@ -753,23 +753,32 @@ def one_history(ctx, r, nops, out):
                 line = (f'conm {lab(label)} {sense} {rat(rhs)} {int(cp)} {"-" if weight is None else rat(weight)} {PEN[penalty]} '
                         + model_args(md))
                 kw = f'label={label!r}, copy={cp}' + (f', weight={weight!r}, penalty={penalty!r}' if weight is not None else '')
+                direct = r.random() < .3      # the method `add_constraint` dispatches to, called directly
+                if direct:
+                    ctx.tick('direct: add_constraint_from_' + ('model' if k == 'conm' else 'comparison'))
                 if k == 'conm':
-                    code = src + f'cqm.add_constraint(_m, {sense!r}, {rhs!r}, {kw})'
+                    code = src + f'cqm.add_constraint{"_from_model" if direct else ""}(_m, {sense!r}, {rhs!r}, {kw})'
                 else:
-                    code = src + f'cqm.add_constraint(_m {sense} {rhs!r}, {kw})'
+                    code = src + f'cqm.add_constraint{"_from_comparison" if direct else ""}(_m {sense} {rhs!r}, {kw})'
                 spec = lambda: ref2.add_constraint_model(md, sense, rhs, label, weight, penalty)   # noqa: E731
                 if weight is not None and penalty == 'quadratic' and any(t[1] not in ('BINARY', 'SPIN') for t in md['vars']):
                     site_class = ('CQM.add_constraint', 'invalid weight or penalty')
             elif k == 'discm':
                 label = newlabel(); cp = r.random() < .5; chk = r.random() < .8
                 line = f'discm {lab(label)} {int(cp)} {int(chk)} ' + model_args(md)
-                code = src + f'cqm.add_discrete(_m, label={label!r}, copy={cp}, check_overlaps={chk})'
+                direct = r.random() < .3
+                if direct:
+                    ctx.tick('direct: add_discrete_from_model')
+                code = src + f'cqm.add_discrete{"_from_model" if direct else ""}(_m, label={label!r}, copy={cp}, check_overlaps={chk})'
                 spec = lambda: ref2.add_discrete_model(md, label, chk)   # noqa: E731
             else:
                 label = newlabel(); cp = r.random() < .5; chk = r.random() < .8
                 sense = '==' if r.random() < .9 else r.choice(SENSES); rhs = 1 if r.random() < .9 else 2
                 line = f'discc {lab(label)} {sense} {rat(rhs)} {int(cp)} {int(chk)} ' + model_args(md)
-                code = src + f'cqm.add_discrete(_m {sense} {rhs!r}, label={label!r}, copy={cp}, check_overlaps={chk})'
+                direct = r.random() < .3
+                if direct:
+                    ctx.tick('direct: add_discrete_from_comparison')
+                code = src + f'cqm.add_discrete{"_from_comparison" if direct else ""}(_m {sense} {rhs!r}, label={label!r}, copy={cp}, check_overlaps={chk})'
                 spec = lambda: ref2.add_discrete_model(md, label, chk, sense, rhs)   # noqa: E731
         elif k == 'objt':
             ts = rand_terms(r, ref)
@@ -785,7 +794,10 @@ def one_history(ctx, r, nops, out):
                 penalty = 'linear'
             line = f'cont {lab(label)} {sense} {rat(rhs)} {"-" if weight is None else rat(weight)} {PEN[penalty]} {terms_arg(ts)}'
             kw = f'label={label!r}' + (f', weight={weight!r}, penalty={penalty!r}' if weight is not None else '')
-            code = f'cqm.add_constraint({ts!r}, {sense!r}, {rhs!r}, {kw})'
+            direct = r.random() < .3
+            if direct:
+                ctx.tick('direct: add_constraint_from_iterable')
+            code = f'cqm.add_constraint{"_from_iterable" if direct else ""}({ts!r}, {sense!r}, {rhs!r}, {kw})'
             spec = lambda: ref2.add_constraint_terms(ts, sense, rhs, label, weight, penalty)   # noqa: E731
         elif k == 'discv':
             pool = [v for v in vs if ref.vars[v][0] == 'BINARY'] + ['x', 'y', 'z', 'w', ('a', 1)]
@@ -795,7 +807,10 @@ def one_history(ctx, r, nops, out):
                 dv.append(r.choice(vs))
             label = newlabel(); chk = r.random() < .8
             line = f'discv {lab(label)} {int(chk)} ' + (','.join(lab(v) for v in dv) or '-')
-            code = f'cqm.add_discrete({dv!r}, label={label!r}, check_overlaps={chk})'
+            direct = r.random() < .3
+            if direct:
+                ctx.tick('direct: add_discrete_from_iterable')
+            code = f'cqm.add_discrete{"_from_iterable" if direct else ""}({dv!r}, label={label!r}, check_overlaps={chk})'
             spec = lambda: ref2.add_discrete_vars(dv, label, chk)   # noqa: E731
         elif k == 'rmvar':
             v = anyv(); line = f'rmvar {lab(v)}'; code = f'cqm.remove_variable({v!r})'
@@ -1019,6 +1034,62 @@ def one_history(ctx, r, nops, out):
                 hist.append(f'{name} = {call}')
                 orig = (new, state(new), name, state(new, canon=True), site, icls + ': copy changed through the original')
             continue
+        elif k == 'clear':
+            if r.random() < .85:
+                continue            # rare: it ends the interesting part of a history
+            line = 'new'; code = 'cqm.clear()'
+
+            def spec():
+                ref2.__dict__.update(Ref().__dict__)
+        elif k == 'addvars':
+            # add_variables(vartype, variables | n): documented as NOT atomic — the variables before an inconsistent one stay
+            vt = r.choice(['BINARY', 'SPIN', 'INTEGER', 'REAL'])
+            if r.random() < .2:
+                arg = r.randint(0, 3); labs_ = list(range(arg))
+            else:
+                pool = [v for v in list(KIND) + NEWLABS if KIND.get(v, vt) == vt or r.random() < .08]
+                labs_ = r.sample(pool, min(len(pool), r.randint(0, 3)))
+                if labs_ and r.random() < .15:
+                    labs_.append(labs_[0])
+                arg = labs_
+            lb = ub = None
+            if vt in ('INTEGER', 'REAL') and r.random() < .6:
+                lb, ub = BOUNDS[vt]
+            kw = ''.join(f', {n}={x!r}' for n, x in (('lower_bound', lb), ('upper_bound', ub)) if x is not None)
+            code = f'cqm.add_variables({vt!r}, {arg!r}{kw})'
+            before = state(cqm)
+            hist.append(code)
+            try:
+                exec(code, dict(cqm=cqm)); outcome = 'ok'
+            except ValueError:
+                outcome = 'err:value'
+            except Exception as e:  # noqa
+                ctx.fail('property', 'CQM.add_variables', f'unexpected {type(e).__name__}', f'`{code}` raised {type(e).__name__}: {e}',
+                         repro=repro_unexpected(hist), detail=dict(history=list(hist)))
+                return
+            sout = 'ok'
+            nadded = 0
+            for v in labs_:
+                try:
+                    ref2.add_variable(vt, v, lb, ub); nadded += 1
+                except Bad:
+                    sout = 'err:value'
+                    break
+            ctx.tick('addvars' + ('' if outcome == 'ok' else ':raises'))
+            ctx.case((code, before), nontrivial=True)
+            if outcome != sout or state(cqm, canon=True) != ref2.show(canon=True):
+                ctx.fail('property', 'CQM.add_variables', 'state' if outcome == sout else 'accept/reject',
+                         f'`{code}` ({outcome}): the model is not what adding the variables one by one (up to the first inconsistent one) gives on a list of polynomials',
+                         repro=repro_of(hist, ref2.show(canon=True), 'state after add_variables'), detail=dict(history=list(hist), impl=state(cqm, canon=True), spec=ref2.show(canon=True)))
+                return
+            ref = ref2
+            # the Lean model follows with one `addvar` per variable that was processed (the last line carries the comparison)
+            done = labs_[:nadded + (1 if sout != 'ok' else 0)]
+            for j, v in enumerate(done):
+                ln = f'addvar {vt} {lab(v)} {"-" if lb is None else rat(lb)} {"-" if ub is None else rat(ub)}'
+                last = j == len(done) - 1
+                out.append(dict(line=ln, expect=(f'{outcome} {state(cqm)}' if last else None), k='addvar', hist=tuple(hist)))
+            continue
         elif k == 'bad':
             # malformed calls whose effect on raise is examined separately
             sub = r.choice(['objt', 'weight', 'penalty', 'qpen'])
@@ -1118,6 +1189,21 @@ def one_history(ctx, r, nops, out):
             return
         if not try_new:
             ref = ref2
+        # ---- derived observers against the specification
+        try:
+            nsoft = sum(1 for c in ref.cons.values() if c.weight is not None)
+            lin_only = all(not p.quad for p in ref.exprs())
+            nb = sum(len(p.order) + len(p.quad) for p in ref.exprs())
+            got_obs = (cqm.num_constraints(), cqm.num_soft_constraints(), bool(cqm.is_linear()), cqm.num_biases(), len(cqm.variables), cqm.num_variables() if callable(cqm.num_variables) else cqm.num_variables)
+            want_obs = (len(ref.cons), nsoft, lin_only, nb, len(ref.vars), len(ref.vars))
+        except Exception as e:  # noqa
+            got_obs, want_obs = ('raise', type(e).__name__), None
+        if got_obs != want_obs:
+            ctx.fail('property', 'CQM counters', 'num_constraints / num_soft_constraints / is_linear / num_biases / num_variables',
+                     f'(num_constraints, num_soft_constraints, is_linear, num_biases, len(variables), num_variables) = {got_obs}, on the list of polynomials {want_obs}',
+                     repro=repro_unexpected(hist) + f'got = (cqm.num_constraints(), cqm.num_soft_constraints(), bool(cqm.is_linear()), cqm.num_biases(), len(cqm.variables))\nprint(got)\nassert got == {want_obs[:5] if want_obs else None!r}\n',
+                     detail=dict(history=list(hist)))
+            return
         # ---- views taken earlier keep pointing at their constraint; removed ones are invalid
         for key, (view, _) in list(views.items()):
             rc = next((c for c in ref.cons.values() if c.uid == key), None)
@@ -1163,7 +1249,7 @@ def run(ctx):
     nbad = 0
     for i, o in enumerate(out):
         g = got[i] if i < len(got) else 'MISSING'
-        if g != o['expect']:
+        if o['expect'] is not None and g != o['expect']:
             nbad += 1
             if nbad > 3:
                 break
